@@ -12,7 +12,10 @@ def run(chk):
                 'file; first use of a trash directory, existing directory, collisions with orphans and strays, volume '
                 'trash directory, home fallback across volumes with its per-file copy and delete steps); the projected '
                 'on-disk state after the kill is judged by TLC (FsTrace): payload present => info present, complete and '
-                'parseable; entry complete at its place or complete under files/. distinct = (scenario, k)')
+                'parseable; entry complete at its place or complete under files/. (3) the same for a kill by interrupt: '
+                'KeyboardInterrupt (Ctrl-C) raised immediately before operation k, and on the return of operation k (where '
+                'Python delivers a signal that arrived during the system call), so that exception handlers and finally '
+                'blocks run before the process ends. distinct = (scenario, kind of kill, k)')
     chk.assumptions += opcommon.ASSUME
     opcommon.model_runs(chk, [
         ('crash_plain', dict(procs=('p1',), cands=('t1',), slots=('n', 'n1'), prepay=[('t1', 'n')])),
@@ -25,18 +28,20 @@ def run(chk):
         n, ops, ex = opdrivers.baseline_ops(scen, chk.seed)
         if ex != 0:
             chk.notes.append('the uninterrupted run of %s exits %s' % (scen, ex))
-        out = tt.pmap(opdrivers.run_crash, [(scen, k, chk.seed) for k in range(1, n + 2)])
+        out = tt.pmap(opdrivers.run_crash, [(scen, k, chk.seed, mode) for mode in ('kill', 'intr', 'intr_after') for k in range(1, n + 2)])
         for o in out:
             chk.traces += 1
-            chk.count('crash', 1, key='%s|%d' % (scen, o['k']), nontrivial=True)
+            chk.count('crash' if o['mode'] == 'kill' else 'interrupt', 1, key='%s|%s|%d' % (scen, o['mode'], o['k']), nontrivial=True)
             items.append(o)
-        if sum(1 for o in out if o['killed']) < n:
-            chk.machinery.append('%s: only %d of %d kill points were reached' % (scen, sum(1 for o in out if o['killed']), n))
+        for mode in ('kill', 'intr', 'intr_after'):
+            if sum(1 for o in out if o['killed'] and o['mode'] == mode) < n:
+                chk.machinery.append('%s: only %d of %d %s points were reached' % (
+                    scen, sum(1 for o in out if o['killed'] and o['mode'] == mode), n, mode))
         chk.sample({'scenario': scen, 'operations of the uninterrupted run': ops[:50], 'kill points': n + 1,
                     'verdict': 'every post-kill state satisfies InfoBeforePayload and NothingLost'}, limit=4)
-    opcommon.judge(chk, 'crash', items, lambda it: it['obs'], lambda it: '%s:%s' % (it['scen'], (it['at'][0] or 'end')),
+    opcommon.judge(chk, 'crash', items, lambda it: it['obs'], lambda it: '%s%s:%s' % (it['scen'], '' if it['mode'] == 'kill' else ':' + it['mode'], (it['at'][0] or 'end')),
                    lambda it: ['InfoBeforePayload', 'NothingLost', 'NoOverwrite', 'UniqueOwnership'],
-                   what_of=lambda it: 'scenario %s killed before operation %s (%s): %s' % (it['scen'], it['k'], it['at'], it['obs']['state']))
+                   what_of=lambda it: 'scenario %s %s operation %s (%s): %s' % (it['scen'], {'kill': 'killed before', 'intr': 'interrupted (Ctrl-C) before', 'intr_after': 'interrupted (Ctrl-C) on return of'}[it['mode']], it['k'], it['at'], it['obs']['state']))
     chk.exhaustive = True
 
 
